@@ -91,8 +91,69 @@ def diff_chain(a: dict | None, b: dict | None, newv: int) -> dict:
     return {"changed": changed, "xref": b["x"] == a["x"], "xint": b["x"] == {"k": "int", "v": newv}}
 
 
+def registry_part(run: Run, tier: str, seed: int) -> None:
+    """C10, histories half: Registry.tla (address reuse, delayed callbacks) + recorded create / resolve / discard histories."""
+    import itertools
+    ok = tlc.must_ok(tlc.run("Registry", "Registry_ok.cfg", workers=8, extra=("-coverage", "1")), "Registry")
+    run.add_model(ok, "Registry/Registry_ok.cfg (4 objects, 2 addresses, delayed callbacks)")
+    for v in ok.violated:
+        run.violation(f"model|{v}", v, {"tlc_tail": ok.stdout[-1500:]})
+    mut = tlc.run("Registry", "Registry_mutant.cfg", workers=4)
+    run.coverage["spec_mutant_NoIdentityCheck_refuted"] = "C10_NoStaleContext" in mut.violated
+    if "C10_NoStaleContext" not in mut.violated:
+        run.notes.append("vacuity: the NoIdentityCheck mutant design was not refuted")
+    # every interleaving of [create, resolve, discard] for three documents, plus re-creation rounds
+    base = [("create", 0), ("resolve", 0), ("discard", 0)]
+    seqs = set()
+    ops = [("create", k) for k in range(3)] + [("resolve", k) for k in range(3)] + [("discard", k) for k in range(3)]
+
+    def gen(prefix, left):
+        if not left:
+            seqs.add(tuple(prefix))
+            return
+        for k in range(3):
+            nxt = next((o for o in left if o[1] == k), None)
+            if nxt is not None:
+                rest = list(left)
+                rest.remove(nxt)
+                gen(prefix + [nxt], rest)
+    gen([], sorted(ops, key=lambda o: (o[1], ["create", "resolve", "discard"].index(o[0]))))
+    seqs = sorted(seqs)
+    rnd = random.Random(seed)
+    if tier == "quick":
+        seqs = rnd.sample(seqs, 400)
+    cases = [{"ops": list(s) + [("create", 3), ("resolve", 3), ("resolve", 0), ("discard", 3)]} for s in seqs]
+    outs = pmap("harness.impl", "registry_case", cases, chunk=40)
+    tlc.WORK.mkdir(exist_ok=True)
+    tmp = Path(tempfile.mkdtemp(prefix="reg-", dir=tlc.WORK))
+    try:
+        lines = [json.dumps({"id": i + 1, "events": o["events"], "results_ok": o["results_ok"]}) for i, o in enumerate(outs)]
+        f = tmp / "reg.ndjson"
+        f.write_text("\n".join(lines) + "\n")
+        r = tlc.must_ok(tlc.run("Registry_Trace", "Registry_Trace.cfg", workers=1, env={"TRACE_FILE": str(f)}, timeout=3600), "Registry_Trace")
+        run.add_model(r, "Registry_Trace")
+        run.traces += len(lines)
+        verdict = {p["id"]: p["bad"] for p in r.printed}
+    finally:
+        shutil.rmtree(tmp, ignore_errors=True)
+    nev = sum(o["n_events"] for o in outs)
+    if nev < len(outs) * 5:
+        raise tlc.TLCFailure("registry hooks emitted (almost) no events: the history check is vacuous")
+    run.coverage["registry_histories"] = len(cases)
+    run.coverage["registry_events"] = nev
+    for i, (c, o) in enumerate(zip(cases, outs), start=1):
+        run.case("registry:" + json.dumps(c["ops"]), nontrivial=True)
+        bad = verdict.get(i)
+        if bad is None:
+            raise tlc.TLCFailure(f"no verdict for registry history {i}")
+        if bad:
+            run.violation(f"{sorted(bad)[0]}|registry_history", sorted(bad)[0], {"history": c["ops"], "wrong": o["wrong"], "all_clauses": bad})
+
+
 def run_engine(prop: str, tier: str, seed: int) -> int:
     run = Run(prop, tier, seed)
+    if prop == "C10":
+        registry_part(run, tier, seed)
     res = tlc.must_ok(tlc.run("MC_Scoping", "MC_Scoping_quick.cfg", workers=16, extra=("-coverage", "1"), timeout=3600), "MC_Scoping")
     run.add_model(res, "MC_Scoping/MC_Scoping_quick.cfg (theorems on every chain <= 3 frames)")
     for v in res.violated:
